@@ -699,6 +699,14 @@ func (h *SexpHash) FillHashFromShadow(env *Zlisp, src interface{}) error {
 func fillHashHelper(r interface{}, depth int, env *Zlisp, preferSym bool) (Sexp, error) {
 	//Q("fillHashHelper() at depth %d, decoded type is %T\n", depth, r)
 
+	// an unset interface or pointer field has nothing to translate
+	if r == nil {
+		return SexpNull, nil
+	}
+	if rv := reflect.ValueOf(r); rv.Kind() == reflect.Ptr && rv.IsNil() {
+		return SexpNull, nil
+	}
+
 	// check for one of our registered structs
 
 	// go through the type registry upfront
